@@ -3,6 +3,7 @@ from registry_common import COMMON_ASSUME
 ENTRY = dict(
         title="Schedule edits touch exactly the addressed slots; commit sends the edited week",
         design_ref="DESIGN.md section 6 / C18",
+        prop_modules=["C18", "C18Heap"],
         technique="Lean 4 theorems over all days / bitmaps / edit sequences (model of set_state, the bitmap codec, the device's receive-edit-commit pipeline) + translator tables + correspondence with ScheduleDay.set_state and with a real EcoMAX device (handle_frame, Schedule objects, Schedule.commit)",
         level_text=(
             "Proof: `C18.set_exact` (a call succeeds iff state valid, times parse, end after start; the day afterwards differs exactly on slots lo..hi, "
@@ -28,13 +29,14 @@ ENTRY = dict(
             "commit payload = index, switch, parameter + 7x48 bitmap, Sunday first, = received bitmap with exactly the edits applied (serialised before any later edit; last response wins)": "theorem",
             "the payload is the week AT COMMIT TIME for every history between commit() and the write": "partial: theorem commit_snapshot_partial (no edit of that schedule in between); full statement refuted (commit_snapshot_full_false), open finding F6",
             "'changes nothing on error' for days of any length": "theorem for 48-slot days (set_never_index_error_48, set_error_inert); false for shorter hand-made days (set_partial_on_short_day), outside the statement",
+            "commit() of a Schedule object kept across later responses sends THAT object (its received week + exactly the edits made to it), switch / parameter of the device": "theorem (heap machine: kept_content, handle_commit_then_drain; refines_sys ties it to the lookup-only machine)",
             "40 distinct schedule names, switch/parameter names at positions 2i / 2i+1, 42-byte bitmap": "table",
             "parsing of '%H:%M' strings": "correspondence (strptime trusted)",
             "model = ScheduleDay / SchedulesStructure / EcoMAX._add_schedules / Schedule.commit": "correspondence",
         },
         assumptions=COMMON_ASSUME + [
             "'an error changes nothing' is claimed for 48-slot days only (every day the decoder produces); on a shorter hand-made day list assignment raises IndexError after a partial edit -- modelled (set_partial_on_short_day) and compared with the implementation, not part of the statement",
-            "the write queue model assumes edits go through device.data['schedules'] (a Schedule object replaced by a later response is no longer edited)",
+            "`Sys` (Model/Schedule.lean) assumes edits go through device.data['schedules']; kept Schedule objects are covered by the heap machine (Model/ScheduleHeap.lean), which refines to `Sys` on histories without handles (theorem refines_sys)",
             "time arguments are strings (a non-string makes strptime raise TypeError, outside the property)",
         ],
         timeout={"quick": 300, "thorough": 1500},
